@@ -329,6 +329,14 @@ func (s *Session) onSetup(resp *rtsp.Response, req *rtsp.Request) {
 		return
 	}
 
+	// 被拒绝的 SETUP 不应改变会话已协商的传输参数
+	oldTransport := s.transport
+	defer func() {
+		if resp.StatusCode != rtsp.StatusOK {
+			s.transport = oldTransport
+		}
+	}()
+
 	err := s.transport.ParseTransport(chindex, ts)
 	if err != nil {
 		resp.StatusCode = rtsp.StatusInvalidParameter
